@@ -17,6 +17,12 @@ FLOORS = {
               "threshold_pairs": 300},
     "thorough": {"distinct_nontrivial": 2500, "table_rows_checked": 300000},
 }
+ANCHORS = [
+    "skchange.change_detectors.seeded_binseg.make_seeded_intervals",
+    "skchange.change_detectors.seeded_binseg.run_seeded_binseg",
+    "skchange.change_detectors.seeded_binseg.greedy_changepoint_selection",
+    "skchange.change_detectors.seeded_binseg.SeededBinarySegmentation._tune_threshold",
+]
 LEVEL = "exploration"
 RULE = (
     "case = SeededBinarySegmentation(change score in {default, CUSUM, L2Cost, GaussianVarCost, "
